@@ -15,7 +15,8 @@ TIMEOUT = {"quick": 240, "thorough": 1800}
 RULE = ("stacks = 0-4 header dictionaries (constructor headers + nested _additional_headers blocks) over 7 base names in "
         "random letter case, including content-length, Content-TYPE and user-agent, with str / int / float / bool / None "
         "values; requests = call, notification, MultiCall batch, over TCP and Unix recording peers; block histories = "
-        "every enter/leave sequence of depth <= 3 with each of the 2^k normal/exceptional exit patterns. Oracles: a "
+        "every enter/leave sequence of depth <= 3 with each of the 2^k normal/exceptional exit patterns, and sequences of "
+        "sibling blocks on one proxy whose dictionaries compare equal but print differently (1/True/1.0). Oracles: a "
         "12-line reference merge (oldest -> newest, last writer per lower-cased name wins, str() values) against the "
         "header lines exactly as received by the raw peer; Content-Length/Content-Type single and correct; User-Agent "
         "configured unless overridden; deep snapshot of the transport's header stack before entering == after leaving. "
@@ -255,6 +256,36 @@ def run(ctx):
                         ctx.cell(fam, "blocks-%d" % k, "".join("E" if p else "n" for p in pattern))
                         run_blocks(ctx, rng, proxy, peer, history, config, ctor, dicts, pattern, case)
                         proxy("close")()
+            # 4. histories on ONE proxy: sibling blocks whose dictionaries compare equal but print differently
+            #    (1 / True / 1.0, 0 / False / 0.0), same names and changing letter case, with and without requests between
+            families = [[1, True, 1.0], [0, False, 0.0], ["a", "a"], [7, 7.0], ["x", "X"]]
+            for rep in range(ctx.pick(6, 120)):
+                config = jsonrpclib.config.Config()
+                history = History()
+                ctor = gen_dict(rng) if rng.random() < 0.5 else {}
+                proxy = jsonrpclib.ServerProxy(peer.url, headers=ctor, history=history, config=config)
+                fam_vals = rng.choice(families)
+                name = rng.choice(["X-Flag", "X-Test", "Authorization"])
+                seq = []
+                for _ in range(rng.randint(3, 7)):
+                    d = {rand_case(rng, name) if rng.random() < 0.3 else name: rng.choice(fam_vals)}
+                    if rng.random() < 0.3:
+                        d["X-Other"] = rng.choice(VALUES)
+                    seq.append(d)
+                case = {"family": fam, "ctor": ctor, "sibling_blocks": seq, "scenario": "siblings"}
+                ctx.case(("siblings", fam, gen.trepr([ctor] + seq)))
+                ctx.cell(fam, "sibling-blocks")
+                for d in seq:
+                    try:
+                        with proxy._additional_headers(d) as p:
+                            send(ctx, rng, p, peer, history, [ctor, d], config, case)
+                            if rng.random() < 0.3:
+                                raise Marker()
+                    except Marker:
+                        pass
+                    if rng.random() < 0.4:
+                        send(ctx, rng, proxy, peer, history, [ctor], config, dict(case, between_blocks=True))
+                proxy("close")()
             ctx.exhaustive["exit patterns (normal/exceptional) of nested blocks up to depth 3"] = True
         finally:
             peer.close()
